@@ -813,7 +813,10 @@ def pipeline_run(c, x, y):
     kw = {"target_function_integral_method": c["trule"]}
     if "malpha_f" in c or "malpha" in c:
         kw["alpha"] = c["malpha_f"] if "malpha_f" in c else fl(c["malpha"])
-    w.integral_match(**kw)
+    if c["n"] % 2:          # the documented positional form: the first parameter is the rule of the TARGET function (seed C02j)
+        w.integral_match(kw.pop("target_function_integral_method"), **kw)
+    else:
+        w.integral_match(**kw)
     return w
 
 
@@ -907,6 +910,8 @@ def wcall(w, op):
     if k == "integral_match":
         kw = {"target_function_integral_method": op["trule"], "reference_function_integral_method": op["rrule"]}
         kw["alpha"] = op["alpha_f"] if "alpha_f" in op else fl(op["alpha"])
+        if len(w.get()[0]) % 2:     # positional form (target rule first, reference rule second), keyword form otherwise
+            return w.integral_match(kw.pop("target_function_integral_method"), kw.pop("reference_function_integral_method"), **kw)
         return w.integral_match(**kw)
     if k == "interpolate_none":
         return w.interpolate(method=op["method"])
